@@ -70,6 +70,38 @@ func init() {
 				emitLib(0)
 			}
 		}
+		// library oracle for the link model: url.Parse + String() of every string found under "href" / "url" (as GetURL sees it)
+		urlTable := []int{}
+		nurls := 0
+		var walk func(v any)
+		walk = func(v any) {
+			switch x := v.(type) {
+			case map[string]any:
+				for _, k := range []string{"href", "url"} {
+					if raw, ok := x[k].(string); ok {
+						nurls++
+						urlTable = putText(urlTable, ansi.Scrub(raw))
+						if u, err := object.Object(x).GetURL(k); err == nil {
+							urlTable = putText(append(urlTable, 1), u.String())
+						} else {
+							urlTable = append(urlTable, 0)
+						}
+					}
+				}
+				for _, y := range x {
+					walk(y)
+				}
+			case []any:
+				for _, y := range x {
+					walk(y)
+				}
+			}
+		}
+		walk(m)
+		if ctor == 0 || ctor == 1 {
+			emitLib(nurls)
+			emitLib(urlTable...)
+		}
 		if ctor == 0 {
 			p, err := pub.NewPostFromObject(o, nil)
 			if err != nil {
